@@ -61,6 +61,7 @@ Lemma handle_hooks_ok p :
                     | inl o => o
                     | inr (XHttp e r) => OHttp e r
                     | inr (XExc j) => OHttp true (err_handle500 j)
+                    | inr (XEsc b) => OEscape b
                     end)
         /\ count mid_event evB = 0 /\ count mid_event evA = 0.
 Proof.
